@@ -20,7 +20,7 @@ from ..report import where_of
 from ..source import dotted_name, enclosing_func, enclosing_stmt
 from ..sqlbind import binding_of, select_column_name
 from ..sqlmodel import conjuncts, walk_expr
-from ..units import DIMENSIONLESS, UnitError, UnitEval, div, fmt, mul, unit_of_name
+from ..units import DIMENSIONLESS, FlowUnits, UnitError, UnitEval, div, fmt, mul, unit_of_name
 from .c17 import check_output_table, column_role, sql_alias_unit, strip_tolist, vector_dumps, output_table
 
 
@@ -168,7 +168,8 @@ def _command(ctx, chk, compute):
         u = unit_of_name(last)
         return u
 
-    ue = UnitEval(call_unit=call_unit)
+    fu = FlowUnits(ctx, g, call_unit=call_unit)
+    ue = fu.evaluator()
     for kw in (p[2], p[3], p[4], p[5]):
         a = bind.get(kw)
         if a is None:
@@ -181,7 +182,7 @@ def _command(ctx, chk, compute):
                    "[%s]" % fmt(want), key="simulate_recession|arg-unit|%s" % kw,
                    why="a wrong conversion constant scales the recession curve")
         except UnitError as exc:
-            chk.indeterminate("C18.O3", where_of(g, c), "unit of %s = %s: %s" % (kw, ast.unparse(a), exc))
+            chk.info("C18.O3", where_of(g, c), "unit of %s = %s not determinable: %s" % (kw, ast.unparse(a), exc), "not decided")
     # roles of grid / mean
     grid = bind.get(p[2])
     gnames = sorted({n.id for n in ast.walk(grid) if isinstance(n, ast.Name)} - {"np", "float"}) if grid is not None else []
@@ -201,13 +202,15 @@ def _command(ctx, chk, compute):
             rets = [n for n in ast.walk(fi.node) if isinstance(n, ast.Return) and n.value is not None]
             if len(rets) == 1:
                 try:
-                    got = UnitEval(call_unit=lambda call, ev: unit_of_name(dotted_name(call.func) or "")).unit(rets[0].value)
+                    got = FlowUnits(ctx, g).unit(rets[0].value)
                     want = unit_of_name(fi.name)
+                    if want is None:
+                        raise UnitError("the wrapper's name carries no unit")
                     chk.ob("C18.O3", got == want, where_of(fi, rets[0]), "%s returns %s [%s]" % (fi.name, ast.unparse(rets[0].value), fmt(got)),
                            "[%s]" % fmt(want), key="simulate_recession|peatclsm-T-unit",
                            why="PEATCLSM transmissivity is in m2/s; the balance needs m2/d")
                 except UnitError as exc:
-                    chk.indeterminate("C18.O3", where_of(fi, rets[0]), "unit: %s" % exc)
+                    chk.info("C18.O3", where_of(fi, rets[0]), "unit of the PEATCLSM wrapper not determinable: %s" % exc, "not decided")
     # et argument is the query result
     eta = bind.get(p[5])
     etb = binding_of(ctx, g, et_site)
@@ -249,7 +252,29 @@ def _command(ctx, chk, compute):
     if not droles:
         chk.indeterminate("C18.O5", where_of(d, d.node), "unpacking of simulate_recession's result not recognised")
         return
-    check_output_table(ctx, chk, "C18.O5", d, droles, "elapsed time")
+    dunits = {}
+    try:
+        gfu = FlowUnits(ctx, g)
+        cst_ = enclosing_stmt(c)
+        for st in ast.walk(d.node):
+            if isinstance(st, ast.Assign) and isinstance(st.value, ast.Call) and ctx.cg.resolve_callee(d, st.value.func) == [g.fq] \
+                    and isinstance(st.targets[0], ast.Tuple) and len(rets) == 1 and isinstance(rets[0].value, ast.Tuple):
+                for t, e in zip(st.targets[0].elts, rets[0].value.elts):
+                    if isinstance(t, ast.Name):
+                        try:
+                            u = gfu.unit(e)
+                            if u[0] != "const":
+                                dunits[t.id] = u
+                        except UnitError:
+                            # the simulated curve: unit of the callee's name
+                            if isinstance(e, ast.Name) and isinstance(cst_, ast.Assign) and isinstance(cst_.targets[0], ast.Name) \
+                                    and cst_.targets[0].id == e.id:
+                                u = unit_of_name(compute.name.replace("compute_", "").replace("_curve", "")) or unit_of_name(compute.params[3])
+                                if u is not None:
+                                    dunits[t.id] = u
+    except Exception:  # noqa
+        dunits = {}
+    check_output_table(ctx, chk, "C18.O5", d, droles, "elapsed time", extra_units=dunits)
     # ordering parity: query direction x reversed
     sel = curve_site.stmt
     qdir = None
